@@ -23,6 +23,19 @@ uint8_t *x__Znam(uint64_t n)
   return p;
 }
 void x__ZdaPv(uint8_t *p) { free(p); }
+/* memcpy/memset with symbolic lengths: element-wise (CBMC's built-ins are exact for constant sizes only) */
+void *memcpy(void *d, const void *s, size_t n)
+{
+  __CPROVER_assert(n % sizeof(FT) == 0 && n <= 2 * NT * sizeof(FT), "C12: copy length is a whole number of traits within the modelled range");
+  for (size_t i = 0; i < 2 * NT; i++) if (i * sizeof(FT) < n) ((FT*)d)[i] = ((const FT*)s)[i];
+  return d;
+}
+void *memset(void *d, int c, size_t n)
+{
+  __CPROVER_assert(c == 0 && n % 2 == 0 && n <= 2 * TAGMAX, "C12: the hash array is zero-filled, last tag + 1 entries");
+  for (size_t i = 0; i < TAGMAX; i++) if (2 * i < n) ((uint16_t*)d)[i] = 0;
+  return d;
+}
 static HA the_ha; static SETT the_set, the_copy;
 uint16_t cx_tag[NT], cx_key; int32_t cx_n; uint64_t cx_fill;
 int main(void)
@@ -55,6 +68,7 @@ int main(void)
   VF_ASSERT(r1 == (present ? arr + idx : end) && r2 == r1 && r3 == r1 && r4 == r1, "C12: every lookup variant hits exactly the present tags and returns that tag's trait");
   VF_ASSERT((ans & 1) == present && (!present || r5 == arr + idx), "C12: find(key, answer) reports membership");
   VF_ASSERT(vf_ps_rsz(&the_set) >= vf_ps_sz(&the_set), "C12: a constructed trait set satisfies size <= reserved size");
+  VF_ASSUME(vf_ps_rsz(&the_set) >= vf_ps_sz(&the_set) && vf_ps_rsz(&the_set) <= 2 * NT);   /* the copy below is examined from states satisfying the invariant just asserted */
   /* ---- copy construction */
   vf_ps_ctor_copy(&the_copy, &the_set);
   FT *carr = vf_ps_arr(&the_copy);
